@@ -61,6 +61,21 @@ func (g *zzGraph) zzImage(docker bool) descriptor.Descriptor {
 	return d
 }
 
+// zzArtifactM writes a config-less OCI artifact manifest naming pool blobs.
+func (g *zzGraph) zzArtifactM() descriptor.Descriptor {
+	nb := zzInt("n_blobs", 1, 2)
+	m := v1.ArtifactManifest{MediaType: mediatype.OCI1Artifact, ArtifactType: "application/example"}
+	for i := 0; i < nb; i++ {
+		b := g.pool[zzInt("art_blob", 0, len(g.pool)-1)]
+		b.MediaType = "application/octet-stream"
+		m.Blobs = append(m.Blobs, b)
+	}
+	b, _ := json.Marshal(m)
+	d := descriptor.Descriptor{MediaType: mediatype.OCI1Artifact, Digest: digest.FromBytes(b), Size: int64(len(b))}
+	zzos.Cur.Put(zzBlobPath(d.Digest), b)
+	return d
+}
+
 func (g *zzGraph) zzNested() descriptor.Descriptor {
 	n := zzInt("n_children", 1, 2)
 	idx := v1.Index{Versioned: v1.IndexSchemaVersion, MediaType: mediatype.OCI1ManifestList, Manifests: []descriptor.Descriptor{}}
@@ -89,6 +104,7 @@ func zzReachable(seen map[digest.Digest]bool, d digest.Digest, depth int) {
 		Manifests []descriptor.Descriptor `json:"manifests"`
 		Config    *descriptor.Descriptor  `json:"config"`
 		Layers    []descriptor.Descriptor `json:"layers"`
+		Blobs     []descriptor.Descriptor `json:"blobs"`
 	}
 	if json.Unmarshal(b, &probe) != nil {
 		return
@@ -100,6 +116,9 @@ func zzReachable(seen map[digest.Digest]bool, d digest.Digest, depth int) {
 		seen[probe.Config.Digest] = true
 	}
 	for _, l := range probe.Layers {
+		seen[l.Digest] = true
+	}
+	for _, l := range probe.Blobs {
 		seen[l.Digest] = true
 	}
 }
@@ -114,11 +133,13 @@ func zzBuild() (*zzGraph, ref.Ref, []descriptor.Descriptor) {
 	n := zzInt("n_top", 0, 2)
 	for i := 0; i < n; i++ {
 		var d descriptor.Descriptor
-		kinds := 2
+		kinds := 3
 		if i > 0 && zzTier() == 0 {
 			kinds = 0 // quick: the second entry is a plain image
 		}
 		switch zzInt("top_kind", 0, kinds) {
+		case 3:
+			d = g.zzArtifactM()
 		case 0:
 			d = g.zzImage(false)
 		case 1:
